@@ -1,6 +1,7 @@
 package main
 
 import (
+	"runtime/pprof"
 	"encoding/json"
 	"flag"
 	"fmt"
@@ -51,7 +52,13 @@ type Result struct {
 
 func main() {
 	specPath := flag.String("spec", "", "harness spec JSON")
+	cpuprof := flag.String("cpuprofile", "", "write cpu profile")
 	flag.Parse()
+	if *cpuprof != "" {
+		f, _ := os.Create(*cpuprof)
+		pprof.StartCPUProfile(f)
+		defer pprof.StopCPUProfile()
+	}
 	if *specPath == "" {
 		fmt.Fprintln(os.Stderr, "usage: symgo -spec spec.json")
 		os.Exit(2)
@@ -99,6 +106,7 @@ func main() {
 	} else {
 		os.Stdout.Write(b)
 	}
+	pprof.StopCPUProfile()
 	os.Exit(worst)
 }
 
